@@ -163,6 +163,7 @@ Theorem C24_source_facts :
   gen_reject_status = "http.StatusUnauthorized"%string /\
   lit gen_bearer_prefix = bearer_prefix /\ gen_bearer_offset = 7 /\
   gen_auth_header = "Authorization"%string /\ gen_query_key = "token"%string /\
+  gen_token_rejected_on_any_bcrypt_error = true /\
   gen_server_config_literals = 1 /\
   gen_server_config_wiring =
     [("TokenHash", "a.cfg.HTTP.TokenHash"); ("EnablePprof", "a.cfg.HTTP.PprofEnabled()");
